@@ -2,7 +2,10 @@
 C15 property theorems.  Hardware operations (`FP`) are parameters: every theorem that mentions
 `fp` holds for EVERY implementation of the IEEE operations.
 -/
-import GPy.C15.Proofs
+import GPy.C15.ProofsI2F
+import GPy.C15.ProofsCmpRound
+import GPy.C15.ProofsDivMod
+import GPy.C15.ProofsRoundFold
 namespace GPy.C15
 
 /-- **int → float is correctly rounded** (the rounding step, all sizes): for `n = q·2^sh + r` with a
@@ -43,17 +46,7 @@ theorem int_to_float_overflow_boundary_witness :
 theorem float_to_int_trunc (a : Nat) (neg : Bool) (m : Nat) (e : Int) (h : decodeF a = .fin neg m e) :
     let mag : Nat := if e ≥ 0 then m * 2^e.toNat else m / 2^(-e).toNat
     let v : Int := if neg then -(mag : Int) else (mag : Int)
-    floatToInt a = .ok (.int v) ∨ floatToInt a = .ok (.big v) := by
-  intro mag v
-  unfold floatToInt
-  rw [h]
-  by_cases he : e ≥ 0
-  · simp only [he, if_true, Nat.shiftLeft_eq, mag, v]
-    split
-    · first | exact Or.inl rfl | simp
-    · first | exact Or.inr rfl | simp
-  · simp only [he, if_false, if_true, mag, v]
-    first | exact Or.inl rfl | simp
+    floatToInt a = .ok (.int v) ∨ floatToInt a = .ok (.big v) := floatToInt_trunc_aux a neg m e h
 
 /-- int(nan) raises ValueError, int(±inf) OverflowError -/
 theorem float_to_int_nonfinite (a : Nat) :
@@ -99,5 +92,151 @@ theorem cmp_int_float_witness :
     ∧ cmpFinInt false (2^52) 1 (2^53 + 1) = .lt
     ∧ rneInt (2^53 + 1) = some 0x4340000000000000 := by
   refine ⟨?_, ?_, ?_⟩ <;> rfl
+
+/-! ## second round: end-to-end conversion, exact comparison, half-even rounding, floor division,
+builtin folds -/
+
+/-- **int → float is correctly rounded, end to end, for every natural number** (the magnitude; the sign
+is copied by `rneInt`).  `rneNat` is the contract of `big.Float.Float64` / the hardware `int64 → float64`
+conversion as used by `(*BigInt).Float` and `convertToFloat`.
+* overflow (OverflowError) exactly from `2^1024 − 2^970` on;
+* below `2^53` the value is represented exactly (`n = (n·2^sh)·2^(−sh)` with a normalised 53-bit mantissa);
+* from `2^53` on the resulting bit pattern decodes to `m·2^k` with `IsNearestEven n m k`: within half a
+  unit in the last place of `n`, exact ties to the even mantissa. -/
+theorem int_to_float_correctly_rounded (n : Nat) (h0 : n ≠ 0) :
+    (rneNat n = none ↔ 2^1024 - 2^970 ≤ n) ∧
+    (∀ b, rneNat n = some b →
+      (n < 2^53 → ∃ sh : Nat, sh ≤ 52 ∧ decodeF b = .fin false (n * 2^sh) (-(sh : Int)) ∧
+        2^52 ≤ n * 2^sh ∧ n * 2^sh < 2^53) ∧
+      (2^53 ≤ n → ∃ m k : Nat, decodeF b = .fin false m (k : Int) ∧ IsNearestEven n m k)) := by
+  refine ⟨rneNat_none_iff n, fun b hb => ⟨fun hlt => ?_, fun hge => rneNat_large n b hge hb⟩⟩
+  obtain ⟨sh, hs, b1, b2, hsh, hdec⟩ := rneNat_small n h0 hlt
+  rw [hs] at hb
+  injection hb with hb
+  subst hb
+  exact ⟨sh, hsh, hdec, b1, b2⟩
+
+example : (2:Nat)^53 ≤ 2^64 + 2^11 + 1 ∧ 2^64 + 2^11 + 1 ≠ 0 := by constructor <;> norm_num
+
+/-- **OverflowError threshold, every integer**: `float(v)` (`(*BigInt).Float`) fails exactly when
+`|v| ≥ 2^1024 − 2^970`, i.e. when the nearest double would be infinite -/
+theorem int_to_float_overflow_iff (v : Int) :
+    bigFloat v = .error .overflow ↔ 2^1024 - 2^970 ≤ v.natAbs := bigFloat_overflow_iff v
+
+/-- **comparisons between ints of any size and floats are exact** (∀ ℤ, ∀ 64-bit patterns including
+±inf and nan, all six operators, both operand orders, both int representations): the model of the
+repaired `floatCompare` and of the dispatch in `py.Lt … py.Ne` equals the comparison of the exact
+rational value of the double with the integer (`specCmpFloatInt`, defined on `Rat`). -/
+theorem cmp_int_float_exact (fp : FP) (op : CmpOp) (a : Nat) (i : Int) :
+    floatCompare fp a (.int i) = some (specCmpFloatInt a i) ∧
+    floatCompare fp a (.big i) = some (specCmpFloatInt a i) ∧
+    richCmp fp op (.float a) (.int i) = .ok (.bool (op.holds (specCmpFloatInt a i))) ∧
+    richCmp fp op (.float a) (.big i) = .ok (.bool (op.holds (specCmpFloatInt a i))) ∧
+    richCmp fp op (.int i) (.float a) = .ok (.bool (op.swap.holds (specCmpFloatInt a i))) ∧
+    richCmp fp op (.big i) (.float a) = .ok (.bool (op.swap.holds (specCmpFloatInt a i))) :=
+  ⟨(floatCompare_int_exact fp a i).1, (floatCompare_int_exact fp a i).2, richCmp_float_int_exact fp op a i⟩
+
+/-- the cross-multiplication on integers that the model performs for a finite double is the
+three-way comparison of the rationals -/
+theorem cmp_fin_int_exact (neg : Bool) (m : Nat) (e : Int) (i : Int) :
+    cmpFinInt neg m e i =
+      (let x := ratOf neg m e; if x < (i : Rat) then Ordering.lt else if (i : Rat) < x then .gt else .eq) :=
+  cmpFinInt_exact neg m e i
+
+/-- **round(int, -k) rounds half to even** (∀ a ∈ ℤ, ∀ k ≥ 1, both representations): the result is the
+multiple of `10^k` nearest to `a`, an exact half going to the even multiple (`IsRoundHalfEven`,
+declarative), and it equals the independent arithmetic definition `specRoundInt`. -/
+theorem round_half_even_int (isWord : Bool) (a : Int) (k : Nat) (hk : 1 ≤ k) :
+    ∃ R, intRound isWord a (.int (-(k : Int))) = .ok (maybeInt R) ∧ IsRoundHalfEven a R (10 ^ k) ∧
+      R = specRoundInt a k := intRound_neg_half_even isWord a k hk
+
+example : bigRoundNeg 25 1 = 20 ∧ bigRoundNeg 35 1 = 40 ∧ bigRoundNeg (-15) 1 = -20 := by decide
+
+/-- `round(int, n)` for `n ≥ 0` or `None` is the int itself -/
+theorem round_int_nonneg (isWord : Bool) (a b : Int) (hb : 0 ≤ b) :
+    intRound isWord a (.int b) = .ok (if isWord then .int a else .big a) ∧
+    intRound isWord a .none = .ok (if isWord then .int a else .big a) :=
+  ⟨intRound_nonneg isWord a b hb, intRound_none isWord a⟩
+
+/-- **modulo takes the sign of the divisor** — relative to the hardware contract `FPContract`
+(fmod exact, `<` exact, a sum of opposite-sign doubles rounds monotonically and is zero only when exact):
+for finite `a`, finite non-zero `b`, `divmod`/`%` return a finite remainder between `0` and `b`
+(inclusive of `b` only through the final rounding of `fmod + b`, as in CPython), and a zero remainder
+carries the sign bit of `b`. -/
+theorem floordiv_mod_sign (fp : FP) (hc : FPContract fp) (a b : Nat) (va vb : Rat)
+    (ha : valOf a = some va) (hb : valOf b = some vb) (hb0 : vb ≠ 0) :
+    ∃ q r vr, floatDivMod fp a b = .ok (q, r) ∧ valOf r = some vr ∧
+      (0 < vb → 0 ≤ vr ∧ vr ≤ vb) ∧ (vb < 0 → vb ≤ vr ∧ vr ≤ 0) ∧
+      (vr = 0 → signBit r = signBit b) := floordiv_mod_sign_aux fp hc a b va vb ha hb hb0
+
+/-- **divmod identity (remainder part)** — relative to `FPContract`: there are an integer `k` and the
+exact floored remainder `ρ` with `a = k·b + ρ`, `ρ` of the sign of `b`, `|ρ| < |b|`; the double returned
+for `%` is `ρ` itself or the single hardware addition `fmod(a,b) + b` whose exact value is `ρ`.
+EXCLUDED (hence `_partial`): the quotient double, which is the rounded hardware quotient
+`(a − mod)/b` adjusted to an integer — exact only when that division is. -/
+theorem divmod_identity_partial (fp : FP) (hc : FPContract fp) (a b : Nat) (va vb : Rat)
+    (ha : valOf a = some va) (hb : valOf b = some vb) (hb0 : vb ≠ 0) :
+    ∃ (k : Int) (ρ : Rat) (q r : Nat), floatDivMod fp a b = .ok (q, r) ∧
+      va = (k : Rat) * vb + ρ ∧ (0 < vb → 0 ≤ ρ ∧ ρ < vb) ∧ (vb < 0 → vb < ρ ∧ ρ ≤ 0) ∧
+      (valOf r = some ρ ∨ ∃ vm, valOf (fp.fmod a b) = some vm ∧ r = fp.add (fp.fmod a b) b ∧ vm + vb = ρ) :=
+  divmod_identity_partial_aux fp hc a b va vb ha hb hb0
+
+set_option maxRecDepth 100000 in
+/-- the hypotheses of the two theorems above are satisfiable at a non-trivial point: 7.0 and -3.0 are
+finite and the divisor is not zero -/
+example : ∃ va vb, valOf 0x401c000000000000 = some va ∧ valOf 0xc008000000000000 = some vb ∧ vb ≠ 0 := by
+  have h1 : decodeF 0x401c000000000000 = .fin false (7 * 2^50) (-50) := by rfl
+  have h2 : decodeF 0xc008000000000000 = .fin true (3 * 2^51) (-51) := by rfl
+  refine ⟨ratOf false (7 * 2^50) (-50), ratOf true (3 * 2^51) (-51), ?_, ?_, ?_⟩
+  · unfold valOf; rw [h1]
+  · unfold valOf; rw [h2]
+  · intro h; have := (ratOf_eq_zero_iff _ _ _).mp h; norm_num at this
+
+/-- **round(x) rounds half to even** — relative to `FPContract` (`math.RoundToEven` exact): for every
+finite double the result is the integer `roundHalfEvenRat` of its exact value, as an Int or a BigInt -/
+theorem round_half_even_float (fp : FP) (hc : FPContract fp) (a : Nat) (va : Rat) (ha : valOf a = some va) :
+    floatRound fp a .none = .ok (.int (roundHalfEvenRat va)) ∨
+      floatRound fp a .none = .ok (.big (roundHalfEvenRat va)) := round_half_even_float_aux fp hc a va ha
+
+/-- the rounding step of `round(x, d)`: the integer chosen for the exact fraction `n/dn` is within a
+half of it, an exact half going to the even integer -/
+theorem round_half_even_float_digits_step (n dn : Nat) (hd : 0 < dn) :
+    let q := n / dn
+    let r := n % dn
+    let q' := if 2 * r > dn || (2 * r == dn && q % 2 == 1) then q + 1 else q
+    2 * (q' * dn) ≤ 2 * n + dn ∧ 2 * n ≤ 2 * (q' * dn) + dn ∧
+    ((2 * (q' * dn) = 2 * n + dn ∨ 2 * n = 2 * (q' * dn) + dn) → q' % 2 = 0) := round_digits_step n dn hd
+
+/-- **builtins fold the operators** (∀ lists, ∀ hardware): `sum` is the left fold of `+` from `0`,
+`min`/`max` the left fold of the `<=` / `>=` selection, `abs`/`pow`/`divmod` are the operators -/
+theorem builtin_agrees_with_operator (fp : FP) :
+    (∀ xs x, builtinSum fp (xs ++ [x]) = (builtinSum fp xs >>= fun acc => binop fp .add acc x)) ∧
+    builtinSum fp [] = .ok (.int 0) ∧
+    (∀ isMax x, builtinMinMax fp isMax [x] = .ok x) ∧
+    (∀ isMax x xs y, builtinMinMax fp isMax (x :: xs ++ [y]) =
+      (builtinMinMax fp isMax (x :: xs) >>= fun best => do
+        let c ← richCmp fp (if isMax then .ge else .le) y best
+        return if c == .bool true then y else best)) ∧
+    (∀ x y, builtinAbs x = unop .abs x ∧ builtinPow fp x y = binop fp .pow x y ∧
+      builtinDivmod fp x y = divmod fp x y) := builtin_agrees_with_operator_aux fp
+
+/-- `min` / `max` return one of their arguments -/
+theorem builtin_minmax_returns_argument (fp : FP) (isMax : Bool) (xs : List Obj) (r : Obj)
+    (h : builtinMinMax fp isMax xs = .ok r) : r ∈ xs := builtinMinMax_mem fp isMax xs r h
+
+/-- the repaired `float op huge-int` raises OverflowError for every operator: an int operand that
+`convertToFloat` refuses because its nearest double is infinite (`|v| ≥ 2^1024 − 2^970`) -/
+theorem float_arith_huge_int_overflow (fp : FP) (op : BinOp) (rev : Bool) (a : Nat) (v : Int)
+    (h : 2^1024 - 2^970 ≤ v.natAbs) : floatMethod fp op rev a (.big v) = .error .overflow := by
+  have hb : bigFloat v = .error .overflow := (bigFloat_overflow_iff v).mpr h
+  simp [floatMethod, convertToFloat, floatNotImplemented, hb]
+
+/-- the remainder of `%`/`divmod` is (the hardware rounding of) Python's exact floored remainder `a − b·⌊a/b⌋` — relative to `FPContract` -/
+theorem divmod_identity_floor (fp : FP) (hc : FPContract fp) (a b : Nat) (va vb : Rat)
+    (ha : valOf a = some va) (hb : valOf b = some vb) (hb0 : vb ≠ 0) :
+    ∃ (ρ : Rat) (q r : Nat), floatDivMod fp a b = .ok (q, r) ∧
+      ρ = va - vb * (((va / vb).floor : Int) : Rat) ∧
+      (valOf r = some ρ ∨ ∃ vm, valOf (fp.fmod a b) = some vm ∧ r = fp.add (fp.fmod a b) b ∧ vm + vb = ρ) :=
+  divmod_identity_floor_aux fp hc a b va vb ha hb hb0
 
 end GPy.C15
